@@ -1,5 +1,6 @@
 import SstModel.Lemmas.Faulty
 import SstModel.Lemmas.FaultyScan
+import SstModel.Lemmas.FaultySeek
 import SstModel.Props.ReaderWF
 /-
   C14 — Failures of the random-access source do not stick.
@@ -219,6 +220,182 @@ theorem C14_short_tail_any (img : Bytes) (h : BlockHandle) (c0 : Bytes) (hread :
     c = c0 :=
   FT.short_tail_at img h c0 hread k c hk1 hk2 hv
 
+/-! ### positional semantics of `seek` / `next` / `prev` under faults
+
+  `SimT t tb it pos`: the iterator stands on entry `li` of data block `bi` (`pos = some (bi, li)`, flat index
+  `t.flatPos pos` in `t.entries`) or is invalid (`pos = none`). `failed` is the list of data blocks whose
+  `read_block` FAILED during the call; `FT.SeekOutcome` / `FT.StepOutcome` / `FT.PrevOutcome` /
+  `FT.NextFrom` (Lemmas/FaultySeek.lean) say exactly which blocks were read, in which worlds, with which
+  results. The model: `seek` resets the iterator when the block the index routes the target to fails to
+  load; when that block loads but the target lies beyond its last key, and in `next`, the advance loop
+  skips failing blocks; `prev` resets when the previous block fails to load. -/
+
+section
+variable (cmp : Cmp) (hc : cmp.Lawful) (p : FilterPolicy) (t : TableImg) (hwf : t.WF cmp)
+  (fv : Option Bytes) (tb : Table) (hop : Opened tb t cmp p fv)
+include hc hwf hop
+
+/-- C14 (`seek` under faults): under ANY fault schedule, `seek k` on any iterator of a session succeeds and
+    the iterator then simulates a position `pos'` (`valid` / `current` say so) such that
+    * the current entry, if any, is a stored entry NOT BELOW the target;
+    * the lower bound `j0` of `k` in `t.entries` exists whenever the iterator is valid, and the entries from
+      `j0` up to the current one are exactly the entries of the blocks whose read failed in this call:
+      never an entry of a readable block is skipped;
+    * if no read failed the position is exactly `Spec.lowerBound cmp t.entries k`;
+    * each failed read consumed a fault of the schedule; file, cache coherence / validity are kept. -/
+theorem C14_seek_under_faults (hns : NoShortCollision t) (it : TableIter) (hit : IterOK it)
+    (htab : it.table = tb) (w : World) (hf : FileOK w tb.file t.img) (hcoh : Coherent w tb.cacheId t)
+    (hcv : CacheValid w) (k : Bytes) :
+    ∃ failed w' it' pos', it.call (.seek k) w = (w', .ok (it', .unit))
+      ∧ SimT t tb it' pos' ∧ FT.SeekOutcome cmp tb t k w failed w' pos'
+      ∧ FileOK w' tb.file t.img ∧ Coherent w' tb.cacheId t ∧ CacheValid w'
+      ∧ it'.valid = (t.flatPos pos').isSome
+      ∧ (∀ w'', it'.current w'' = (w'', .ok (Spec.entryAt t.entries (t.flatPos pos'))))
+      ∧ (∀ e, Spec.entryAt t.entries (t.flatPos pos') = some e → e ∈ t.entries ∧ cmp.cmp e.1 k ≠ .lt)
+      ∧ (∀ j, t.flatPos pos' = some j → ∃ j0, Spec.lowerBound cmp t.entries k = some j0
+            ∧ j = j0 + (failed.flatMap (·.blk.kvs)).length
+            ∧ (t.entries.drop j0).take ((failed.flatMap (·.blk.kvs)).length) = failed.flatMap (·.blk.kvs))
+      ∧ (failed = [] → t.flatPos pos' = Spec.lowerBound cmp t.entries k)
+      ∧ failed.length + FT.faultCount w' ≤ FT.faultCount w := by
+  obtain ⟨ipos, hon⟩ := FT.Good.on cmp hc p t hwf fv tb hop ⟨hit, htab⟩
+  have hi : FT.Inv tb t w := ⟨hf, hcoh, hcv⟩
+  obtain ⟨failed, w', it', pos', hrun, hsT, hinv, hout⟩ :=
+    FT.seek_gen cmp hc p t hwf fv tb hop (FT.Inv tb t) (FT.loadOK_inv cmp hc p t hwf fv tb hop hns)
+      it htab ipos hon.on.index w hi k
+  refine ⟨failed, w', it', pos', ?_, hsT, hout, hinv.1, hinv.2.1, hinv.2.2,
+    simT_valid cmp hc p t hwf fv tb hop it' pos' hsT,
+    fun w'' => simT_current cmp hc p t hwf fv tb hop w'' it' pos' hsT, ?_,
+    FT.seekOutcome_skipped cmp hc p t hwf fv tb hop hout, ?_,
+    FT.seekOutcome_count cmp hc p t hwf fv tb hop hns hout hi⟩
+  · show (it.seek k >>= fun it' => pure (it', IterOut.unit)) w = _
+    rw [TI.bind_ok hrun]; rfl
+  · intro e he
+    refine ⟨?_, FT.seekOutcome_not_below cmp hc p t hwf fv tb hop hout e he⟩
+    cases hfp : t.flatPos pos' with
+    | none => rw [hfp] at he; cases he
+    | some j => rw [hfp] at he; exact List.mem_of_getElem? he
+  · intro hnil
+    subst hnil
+    exact FT.seekOutcome_exact cmp hc p t hwf fv tb hop hout
+
+/-- C14 (`seek` of a STORED key under faults): the iterator is invalid — exactly when the block holding the
+    key failed to load — or stands exactly on the entry of `k`; never on a later entry -/
+theorem C14_seek_stored_key (hns : NoShortCollision t) (it : TableIter) (hit : IterOK it)
+    (htab : it.table = tb) (w : World) (hf : FileOK w tb.file t.img) (hcoh : Coherent w tb.cacheId t)
+    (hcv : CacheValid w) (d : DBlock) (hd : d ∈ t.blocks) (k : Bytes) (hk : k ∈ d.keys) :
+    ∃ w' it', it.call (.seek k) w = (w', .ok (it', .unit))
+      ∧ ((it'.valid = false ∧ (∀ w'', it'.current w'' = (w'', .ok none))
+            ∧ ∃ w1 c, tb.readBlock d.handle w = (w1, .err c))
+        ∨ (it'.valid = true ∧ ∃ v, (k, v) ∈ t.entries ∧ ∀ w'', it'.current w'' = (w'', .ok (some (k, v))))) := by
+  obtain ⟨failed, w', it', pos', hrun, hsT, hout, _, _, _, hvalid, hcur, _⟩ :=
+    C14_seek_under_faults cmp hc p t hwf fv tb hop hns it hit htab w hf hcoh hcv k
+  refine ⟨w', it', hrun, ?_⟩
+  rcases FT.seekOutcome_stored cmp hc p t hwf fv tb hop hout d hd hk with ⟨rfl, hfd⟩ | ⟨_, v, hv, hent⟩
+  · left
+    refine ⟨hvalid, hcur, ?_⟩
+    -- the failed block is `d`: read off the outcome
+    obtain ⟨bi, hS, hbd⟩ := FT.routed_of_key cmp hc t hwf d hd k hk
+    unfold FT.SeekOutcome at hout
+    rw [hS] at hout
+    obtain ⟨d', hd', hcase⟩ := hout
+    rw [hbd] at hd'
+    cases hd'
+    rcases hcase with ⟨c, hrb, _, _⟩ | ⟨w1, _, hm⟩
+    · exact ⟨_, c, hrb⟩
+    · -- impossible: `failed = [d]` but the block loaded and holds the key
+      exfalso
+      obtain ⟨e, hem, hek⟩ : ∃ e ∈ d.blk.kvs, e.1 = k := by
+        have : k ∈ d.blk.kvs.map (·.1) := by rw [TI.kvs_keys]; exact hk
+        obtain ⟨e, he, hek⟩ := List.mem_map.mp this
+        exact ⟨e, he, hek⟩
+      have hsorted : KeysSorted cmp (d.blk.kvs.map (·.1)) := by
+        rw [TI.kvs_keys]; exact TI.block_sorted hwf hbd
+      have hent := entryAt_lowerBound_of_mem cmp hc d.blk.kvs hsorted e.1 e.2 hem
+      rw [hek] at hent
+      cases hlb2 : Spec.lowerBound cmp d.blk.kvs k with
+      | none => rw [hlb2] at hent; cases hent
+      | some li =>
+        rw [hlb2] at hm
+        obtain ⟨hnil, _, _⟩ := hm
+        rw [hnil] at hfd
+        cases hfd
+  · right
+    have hmem : (k, v) ∈ t.entries := by
+      rw [FT.entries_flatMap]
+      exact List.mem_flatMap.mpr ⟨d, hd, hv⟩
+    refine ⟨?_, v, hmem, fun w'' => by rw [hcur w'', hent]⟩
+    rw [hvalid]
+    cases hfp : t.flatPos pos' with
+    | none => rw [hfp] at hent; cases hent
+    | some j => rfl
+
+/-- C14 (`advance` / `next` under faults, from ANY position — a scan resumed in the middle): the new
+    position is the successor entry in `t.entries`, or the first entry of a later block, ALL blocks in between
+    having failed to load in this call, or invalid with all remaining blocks failed (or none remaining):
+    `FT.StepOutcome`. The successor `j0` exists whenever the iterator is valid afterwards, and the entries
+    from `j0` up to the new current one are exactly those of the failed blocks; nothing failed ⇒ exactly
+    the successor. -/
+theorem C14_next_under_faults (hns : NoShortCollision t) (it : TableIter) (pos : Option (Nat × Nat))
+    (hs : SimT t tb it pos) (w : World) (hf : FileOK w tb.file t.img) (hcoh : Coherent w tb.cacheId t)
+    (hcv : CacheValid w) :
+    ∃ failed w' it' pos', it.advance w = (w', .ok (it', (t.flatPos pos').isSome))
+      ∧ it.next w = (w', .ok (it', Spec.entryAt t.entries (t.flatPos pos')))
+      ∧ SimT t tb it' pos' ∧ FT.StepOutcome tb t pos w failed w' pos'
+      ∧ FileOK w' tb.file t.img ∧ Coherent w' tb.cacheId t ∧ CacheValid w'
+      ∧ (∀ j, t.flatPos pos' = some j → ∃ j0, (Spec.advance t.entries (t.flatPos pos)).1 = some j0
+            ∧ j = j0 + (failed.flatMap (·.blk.kvs)).length
+            ∧ (t.entries.drop j0).take ((failed.flatMap (·.blk.kvs)).length) = failed.flatMap (·.blk.kvs))
+      ∧ (failed = [] → t.flatPos pos' = (Spec.advance t.entries (t.flatPos pos)).1)
+      ∧ failed.length + FT.faultCount w' ≤ FT.faultCount w := by
+  have hi : FT.Inv tb t w := ⟨hf, hcoh, hcv⟩
+  obtain ⟨failed, w', it', pos', hadv, hsT, hinv, hout⟩ :=
+    FT.advance_gen cmp hc p t hwf fv tb hop (FT.Inv tb t) (FT.loadOK_inv cmp hc p t hwf fv tb hop hns)
+      it pos hs w hi
+  have hflag : pos'.isSome = (t.flatPos pos').isSome := by cases pos' <;> rfl
+  refine ⟨failed, w', it', pos', by rw [← hflag]; exact hadv,
+    FT.next_of_advance cmp hc p t hwf fv tb hop hadv hsT, hsT, hout, hinv.1, hinv.2.1, hinv.2.2,
+    FT.stepOutcome_skipped cmp hc p t hwf fv tb hop hs hout, ?_,
+    FT.stepOutcome_count cmp hc p t hwf fv tb hop hns hout hi⟩
+  intro hnil
+  subst hnil
+  exact FT.stepOutcome_exact cmp hc p t hwf fv tb hop hs hout
+
+/-- C14 (`prev` under faults, from a valid position): the predecessor entry of `t.entries` (in the same
+    block without any read; across a block boundary after loading the previous block), or — exactly when
+    that load fails — invalid (the model resets the iterator). Never a wrong entry. -/
+theorem C14_prev_under_faults (hns : NoShortCollision t) (it : TableIter) (bi li : Nat)
+    (hs : SimT t tb it (some (bi, li))) (w : World) (hf : FileOK w tb.file t.img)
+    (hcoh : Coherent w tb.cacheId t) (hcv : CacheValid w) :
+    ∃ failed w' it' pos', it.prev w = (w', .ok (it', (t.flatPos pos').isSome))
+      ∧ SimT t tb it' pos' ∧ FT.PrevOutcome tb t bi li w failed w' pos'
+      ∧ FileOK w' tb.file t.img ∧ Coherent w' tb.cacheId t ∧ CacheValid w'
+      ∧ ((failed = [] ∧ t.flatPos pos' = (Spec.prevValid (TwoLevel.flatIdx t.kvBlocks bi li)).1)
+          ∨ (pos' = none ∧ ∃ d', failed = [d']))
+      ∧ failed.length + FT.faultCount w' ≤ FT.faultCount w := by
+  have hi : FT.Inv tb t w := ⟨hf, hcoh, hcv⟩
+  obtain ⟨failed, w', it', pos', hrun, hsT, hinv, hout⟩ :=
+    FT.prev_gen cmp hc p t hwf fv tb hop (FT.Inv tb t) (FT.loadOK_inv cmp hc p t hwf fv tb hop hns)
+      it bi li hs w hi
+  have hflag : pos'.isSome = (t.flatPos pos').isSome := by cases pos' <;> rfl
+  exact ⟨failed, w', it', pos', by rw [← hflag]; exact hrun, hsT, hout, hinv.1, hinv.2.1, hinv.2.2,
+    FT.prevOutcome_pred_or_invalid cmp hc p t hwf fv tb hop hout,
+    FT.prevOutcome_count cmp hc p t hwf fv tb hop hns hout hi⟩
+
+/-- C14 (every call keeps the simulation): under ANY fault schedule, every iterator call on an iterator
+    that simulates a position succeeds and leaves an iterator that simulates a position — so `valid`,
+    `current`, `current_key` never show anything but stored entries, whatever failed before -/
+theorem C14_call_keeps_sim (hns : NoShortCollision t) (it : TableIter) (pos : Option (Nat × Nat))
+    (hs : SimT t tb it pos) (op : IterOp) (w : World) (hf : FileOK w tb.file t.img)
+    (hcoh : Coherent w tb.cacheId t) (hcv : CacheValid w) :
+    ∃ w' it' out pos', it.call op w = (w', .ok (it', out)) ∧ SimT t tb it' pos'
+      ∧ FileOK w' tb.file t.img ∧ Coherent w' tb.cacheId t ∧ CacheValid w' := by
+  obtain ⟨w', it', out, pos', hrun, hsT, hinv⟩ :=
+    FT.call_gen cmp hc p t hwf fv tb hop (FT.Inv tb t) (FT.loadOK_inv cmp hc p t hwf fv tb hop hns)
+      it pos hs op w ⟨hf, hcoh, hcv⟩
+  exact ⟨w', it', out, pos', hrun, hsT, hinv.1, hinv.2.1, hinv.2.2⟩
+
+end
+
 end Sst
 
 #print axioms Sst.C14_read_block
@@ -234,3 +411,8 @@ end Sst
 #print axioms Sst.C14_scan_after_reset
 #print axioms Sst.C14_open_right_or_error
 #print axioms Sst.C14_short_tail_any
+#print axioms Sst.C14_seek_under_faults
+#print axioms Sst.C14_seek_stored_key
+#print axioms Sst.C14_next_under_faults
+#print axioms Sst.C14_prev_under_faults
+#print axioms Sst.C14_call_keeps_sim
